@@ -58,6 +58,12 @@ def run(ctx):
     import locklib
     ctx.rule('R06.7', 'submitting never blocks: channels that carry commands to store workers / voting threads are unbounded')
     ctx.floor('R06.7', locklib.rule_command_channels(ctx, 'R06.7'), 3)
+    import votinglib as V_
+    ctx.rule('R06.9', 'both front ends reach the same assignment and the same shards whatever the store holds: winners from '
+                      'the one maximising assignment (no size-dependent shortcut), shards and workers selected by id % n')
+    n = V_.rule_hungarian(ctx, 'R06.9')
+    n += S.rule_shard_index(ctx, 'R06.9')
+    ctx.floor('R06.9', n, 8)
     import trackerlib as T_
     ctx.rule('R06.8', 'one job per scene of a batch: the request keeps one entry per scene id (entries selected by id)')
     ctx.floor('R06.8', T_.rule_batch_request(ctx, 'R06.8'), 2)
